@@ -96,6 +96,33 @@ def gate_stress(ck, n):
     return fails
 
 
+def dataset_stress(ck, n):
+    """Several delay datasets on one simulator with mixed per-simulation selection modes: every lane's transitions must lie in the
+    static-timing window of the dataset that lane is annotated with (and obey emit-is-sum with it)."""
+    import random
+    rng = random.Random(ck.seed * 7919 + 4404)
+    fails = []
+    for i in range(n):
+        k = wk.gen_wave_case(rng, n_gates=rng.choice([3, 5, 8]), sims=rng.choice([2, 3, 5]), reuse=False, strip=False, extra_prob=0.5)
+        k.tcap = None
+        try:
+            w, dsets, eff, how = wk.mixed_dataset_run(rng, k, cuda=(i % 4 == 3))
+            what = None
+            for lane in range(k.sims):
+                times = wo.stim_times(k.s0, k.s1, k.s2, k.extra, len(k.c.s_nodes), lane)
+                m = wo.check_sta(w, k.c, np.asarray(dsets[eff[lane]]), times, lane, False, all_lines=True, polfree=False) or \
+                    wo.check_emit_sum(w, k.c, np.asarray(dsets[eff[lane]]), lane, False)
+                if m:
+                    what = f'lane {lane} (dataset {eff[lane]} by its selection mode): {m}'
+                    break
+        except Exception as e:
+            how, what = {}, f'raises {type(e).__name__}: {e}'
+        ck.count(k.sims, 'mixed-dataset-modes')
+        if what:
+            fails.append((dict(wk.describe(k), dataset_selection=how), 'delay dataset selection: ' + what))
+    return fails
+
+
 def run(ck):
     if THEOREMS:
         ck.prove('C04', THEOREMS)
@@ -103,13 +130,26 @@ def run(ck):
     ck.rule('random circuits x integer delay tables x capacities x multi-transition input waveforms on the integer (dyadic) grid; '
             'oracle: independent static timing analysis over the annotated netlist, reruns shifted by +16/-5 and scaled by 4 and 1/2, '
             'strict monotonicity for polarity-independent delay tables')
-    fails = gate_stress(ck, ck.scale(300, 6000)) + fails
+    fails = gate_stress(ck, ck.scale(300, 6000)) + dataset_stress(ck, ck.scale(24, 400)) + fails
     wk.report(ck, fails, mism, 'wavesim:sta', 'wave_sim.WaveSim')
 
 
 def replay(rp):
     if 'warm_round' in rp.get('input', {}):
         return wk.warm_replay(rp['input'])
+    if 'dataset_selection' in rp.get('input', {}):
+        k, how = wk.from_description(rp['input']), rp['input']['dataset_selection']
+        try:
+            ctl, dsets = np.array(how['simctl'], dtype=np.int32), np.array(how['datasets'])
+            w = wc.run_wavesim(k.c, dsets, k.sims, k.caps, k.reuse, k.strip, k.s0, k.s1, k.s2, k.extra, k.tcap, simctl=ctl, seed=how['seed'])
+            for lane in range(k.sims):
+                e = how['seed'] if ctl[1][lane] == 0 else int(ctl[0][lane])
+                times = wo.stim_times(k.s0, k.s1, k.s2, k.extra, len(k.c.s_nodes), lane)
+                if wo.check_sta(w, k.c, dsets[e], times, lane, False, all_lines=True, polfree=False) or wo.check_emit_sum(w, k.c, dsets[e], lane, False):
+                    return True
+            return False
+        except Exception:
+            return True
     k = wk.from_description(rp['input'])
     try:
         w = wk.run_case(k)
